@@ -1,5 +1,5 @@
 import CardVerif.Proofs.ListLemmas
-import CardVerif.Model.Pot
+import CardModel.Model.Pot
 /-!
 # Conservation and non-negativity for `Pot.settle` (C02, used by C01)
 
